@@ -3,6 +3,7 @@
  * Connections (ids 0..MAXC-1), all over AF_UNIX socketpairs, single-threaded except for the
  * handshake of a LibVNCClient with the real server (helper thread runs InitialiseRFBConnection
  * while the main thread pumps rfbProcessEvents):
+ *   rawws <id> <0|1>     reference peer over the WebSocket transport (binary / base64); wsfr id a,b = frame cuts of the next send
  *   raw  <id>            reference peer (the script supplies exact wire bytes) on the real server, NORMAL
  *   rawpre <id>          reference peer left in RFB_PROTOCOL_VERSION state (not-yet-NORMAL client)
  *   lib  <id> <utf8>     real LibVNCClient <-> real server
@@ -39,6 +40,9 @@ typedef struct {
   int ffd;               /* fsrv: harness end (fake server) */
   int dropped;           /* HandleRFBServerMessage returned FALSE, client closed */
   int stalled;           /* reference peer stopped reading and the server's send buffer is tiny */
+  int ws;                /* reference peer speaks through the WebSocket transport: 1 binary, 2 base64 sub-protocol */
+  vh_buf wsplain;        /* ws: RFB bytes recovered from the server's frames */
+  long wsfr[8]; int nwsfr; /* ws: frame boundaries (offsets) for the next send; none = one frame */
   vh_buf fout;           /* fsrv: bytes written by the client library */
 } conn_t;
 static conn_t C[MAXC];
@@ -209,6 +213,77 @@ static void canon_msgs(const char *tag, int id, vh_buf *b, int ty) {
   vh_buf_reset(b);
 }
 
+/* ------------------------------------------------------------------ WebSocket reference peer */
+static const char b64tab[] = "ABCDEFGHIJKLMNOPQRSTUVWXYZabcdefghijklmnopqrstuvwxyz0123456789+/";
+static void b64_enc(const unsigned char *p, size_t n, vh_buf *o) {
+  size_t i; char q[4];
+  for (i = 0; i + 2 < n; i += 3) {
+    q[0] = b64tab[p[i] >> 2]; q[1] = b64tab[((p[i] & 3) << 4) | (p[i+1] >> 4)];
+    q[2] = b64tab[((p[i+1] & 15) << 2) | (p[i+2] >> 6)]; q[3] = b64tab[p[i+2] & 63];
+    vh_buf_add(o, q, 4);
+  }
+  if (n - i == 1) { q[0] = b64tab[p[i] >> 2]; q[1] = b64tab[(p[i] & 3) << 4]; q[2] = q[3] = '='; vh_buf_add(o, q, 4); }
+  else if (n - i == 2) { q[0] = b64tab[p[i] >> 2]; q[1] = b64tab[((p[i] & 3) << 4) | (p[i+1] >> 4)]; q[2] = b64tab[(p[i+1] & 15) << 2]; q[3] = '='; vh_buf_add(o, q, 4); }
+}
+static int b64_val(int c) { const char *q = c ? strchr(b64tab, c) : NULL; return q ? (int)(q - b64tab) : -1; }
+static void b64_dec(const unsigned char *p, size_t n, vh_buf *o) {
+  size_t i; unsigned acc = 0; int bits = 0;
+  for (i = 0; i < n; i++) {
+    int v = b64_val(p[i]); unsigned char b;
+    if (v < 0) continue;
+    acc = (acc << 6) | (unsigned)v; bits += 6;
+    if (bits >= 8) { bits -= 8; b = (unsigned char)(acc >> bits); vh_buf_add(o, &b, 1); }
+  }
+}
+/* one masked client frame with the RFB bytes p[0..n) */
+static void ws_frame(conn_t *c, const unsigned char *p, size_t n, vh_buf *o) {
+  static const unsigned char key[4] = { 0x37, 0xfa, 0x21, 0x3d };
+  vh_buf pl; unsigned char h[14]; size_t hl = 0, i, base;
+  memset(&pl, 0, sizeof pl);
+  if (c->ws == 2) b64_enc(p, n, &pl); else vh_buf_add(&pl, p, n);
+  h[hl++] = c->ws == 2 ? 0x81 : 0x82;
+  if (pl.n < 126) h[hl++] = (unsigned char)(0x80 | pl.n);
+  else if (pl.n < 65536) { h[hl++] = 0x80 | 126; h[hl++] = (unsigned char)(pl.n >> 8); h[hl++] = (unsigned char)pl.n; }
+  else { int k; h[hl++] = 0x80 | 127; for (k = 7; k >= 0; k--) h[hl++] = (unsigned char)((uint64_t)pl.n >> (8 * k)); }
+  memcpy(h + hl, key, 4); hl += 4;
+  vh_buf_add(o, h, hl);
+  base = o->n;
+  vh_buf_add(o, pl.p, pl.n);
+  for (i = 0; i < pl.n; i++) o->p[base + i] ^= key[i & 3];
+  free(pl.p);
+}
+/* send RFB bytes from a reference peer: plain, or as WebSocket frames cut at the pending boundaries */
+static int raw_send(conn_t *c, const unsigned char *p, size_t n) {
+  vh_buf o; size_t off = 0; int k, r;
+  if (!c->ws) return vh_send(&c->sc, p, n);
+  memset(&o, 0, sizeof o);
+  for (k = 0; k < c->nwsfr; k++) {
+    size_t cut = (size_t)c->wsfr[k];
+    if (cut <= off || cut >= n) continue;
+    ws_frame(c, p + off, cut - off, &o); off = cut;
+  }
+  ws_frame(c, p + off, n - off, &o);
+  c->nwsfr = 0;
+  r = vh_send(&c->sc, o.p, o.n);
+  free(o.p);
+  return r;
+}
+/* move complete server frames from sc.out to wsplain */
+static void ws_deframe(conn_t *c) {
+  vh_buf *b = &c->sc.out; size_t off = 0;
+  while (b->n - off >= 2) {
+    const unsigned char *q = b->p + off; size_t hl = 2; uint64_t len = q[1] & 0x7f; int k;
+    if (len == 126) { if (b->n - off < 4) break; len = ((uint64_t)q[2] << 8) | q[3]; hl = 4; }
+    else if (len == 127) { if (b->n - off < 10) break; len = 0; for (k = 0; k < 8; k++) len = (len << 8) | q[2 + k]; hl = 10; }
+    if (q[1] & 0x80) hl += 4;          /* the server never masks; tolerated */
+    if (b->n - off < hl + len) break;
+    if ((q[0] & 0x0f) == 1) b64_dec(q + hl, (size_t)len, &c->wsplain);
+    else if ((q[0] & 0x0f) == 2) vh_buf_add(&c->wsplain, q + hl, (size_t)len);
+    off += hl + (size_t)len;
+  }
+  vh_buf_consume(b, off);
+}
+
 /* ------------------------------------------------------------------ pumping */
 static int srv_open(int id) {
   return (C[id].kind == K_RAW || C[id].kind == K_RAWPRE || C[id].kind == K_LIB)
@@ -259,7 +334,10 @@ static void finish_op_(int do_pump) {
   int i, first;
   if (do_pump) pump();
   for (i = 0; i < MAXC; i++) {
-    if ((C[i].kind == K_RAW || C[i].kind == K_RAWPRE) && !C[i].stalled) canon_msgs("tx", i, &C[i].sc.out, 3);
+    if ((C[i].kind == K_RAW || C[i].kind == K_RAWPRE) && !C[i].stalled) {
+      if (C[i].ws) { ws_deframe(&C[i]); canon_msgs("tx", i, &C[i].wsplain, 3); }
+      else canon_msgs("tx", i, &C[i].sc.out, 3);
+    }
     if (C[i].kind == K_FSRV) canon_msgs("ctx", i, &C[i].fout, 6);
   }
   if (!ev.n) vh_buf_add(&ev, "-", 1);
@@ -320,13 +398,34 @@ static void *hs_thread(void *a) {
   return NULL;
 }
 
-static int setup_raw(int id, int normal) {
+static int setup_raw(int id, int normal, int ws) {
   conn_t *c = &C[id]; unsigned char b[1]; vh_conn *arr[1];
   int sv[2];
   memset(c, 0, sizeof *c); c->lfd = c->ffd = -1;
   if (new_sockpair(sv) < 0) return -1;
   nonblock(sv[1]);
   c->sc.peer = sv[1]; c->sc.srvfd = sv[0];
+  c->ws = ws;
+  if (ws) {
+    char req[512]; int k; long he = -1; size_t j;
+    k = snprintf(req, sizeof req, "GET / HTTP/1.1\r\nHost: h\r\nOrigin: o\r\nSec-WebSocket-Key: dGhlIHNhbXBsZSBub25jZQ==\r\n"
+                 "Sec-WebSocket-Version: 13\r\nSec-WebSocket-Protocol: %s\r\n\r\n", ws == 2 ? "base64" : "binary");
+    if (write(sv[1], req, (size_t)k) != k) return -1;
+    c->kind = K_RAW;
+    c->sc.cl = rfbNewClient(scr, sv[0]);
+    if (!c->sc.cl || !c->sc.cl->wsctx) return -1;
+    c->sc.cl->clientData = &c->sc; c->sc.cl->clientGoneHook = vh_gone_hook;
+    arr[0] = &c->sc;
+    vh_pump(scr, arr, 1);
+    for (j = 0; j + 3 < c->sc.out.n; j++) if (!memcmp(c->sc.out.p + j, "\r\n\r\n", 4)) { he = (long)j + 4; break; }
+    if (he < 0) return -1;
+    vh_buf_consume(&c->sc.out, (size_t)he);
+    raw_send(c, (const unsigned char *)"RFB 003.008\n", 12); vh_pump(scr, arr, 1);
+    b[0] = 1; raw_send(c, b, 1); vh_pump(scr, arr, 1);
+    b[0] = 1; raw_send(c, b, 1); vh_pump(scr, arr, 1);
+    vh_buf_reset(&c->sc.out); vh_buf_reset(&c->wsplain);
+    return (c->sc.cl && c->sc.cl->state == RFB_NORMAL) ? 0 : -1;
+  }
   if (write(sv[1], "RFB 003.008\n", 12) != 12) return -1;
   c->kind = normal ? K_RAW : K_RAWPRE;
   c->sc.cl = rfbNewClient(scr, sv[0]);
@@ -360,6 +459,7 @@ static int setup_lib(int id, int utf8) {
   pthread_join(th, NULL);
   if (!h.ok || !c->sc.cl) return -1;
   nonblock(sv[1]);
+  if (!c->lc->MallocFrameBuffer(c->lc)) return -1;
   if (!SetFormatAndEncodings(c->lc)) return -1;
   return 0;
 }
@@ -439,7 +539,44 @@ int main(void) {
     if ((!strcmp(tok[0], "raw") || !strcmp(tok[0], "rawpre")) && n == 2) {
       id = atoi(tok[1]);
       if (id < 0 || id >= MAXC || C[id].kind) { puts("bad-op"); fflush(stdout); continue; }
-      if (setup_raw(id, tok[0][3] == 0) < 0) { puts("setup-failed"); fflush(stdout); continue; }
+      if (setup_raw(id, tok[0][3] == 0, 0) < 0) { puts("setup-failed"); fflush(stdout); continue; }
+      finish_op(); continue;
+    }
+    if (!strcmp(tok[0], "rawws") && n == 3) {      /* reference peer over the WebSocket transport: 0 binary, 1 base64 */
+      id = atoi(tok[1]);
+      if (id < 0 || id >= MAXC || C[id].kind) { puts("bad-op"); fflush(stdout); continue; }
+      if (setup_raw(id, 1, atoi(tok[2]) ? 2 : 1) < 0) { puts("setup-failed"); fflush(stdout); continue; }
+      finish_op(); continue;
+    }
+    if (!strcmp(tok[0], "wsfr") && n == 3) {        /* frame boundaries of the next send (the model ignores framing) */
+      char *q; conn_t *c;
+      id = atoi(tok[1]);
+      if (id >= 0 && id < MAXC && C[id].kind == K_RAW && C[id].ws) {
+        c = &C[id]; c->nwsfr = 0;
+        for (q = strtok(tok[2], ","); q && c->nwsfr < 8; q = strtok(NULL, ",")) {
+          long v = atol(q);
+          if (v > (c->nwsfr ? c->wsfr[c->nwsfr - 1] : 0)) c->wsfr[c->nwsfr++] = v;
+        }
+      }
+      puts("ok"); fflush(stdout); continue;
+    }
+    if (!strcmp(tok[0], "fbu") && n == 2) {
+      /* the library client asks for the whole framebuffer (twice: a size-only update may come
+         first) and digests the updates, including the SupportedMessages pseudo-rectangle */
+      static rfbSupportedMessages ref; static int have_ref; int r; conn_t *c;
+      id = atoi(tok[1]);
+      if (id < 0 || id >= MAXC || C[id].kind != K_LIB || C[id].dropped) { puts("bad-op"); fflush(stdout); continue; }
+      c = &C[id];
+      for (r = 0; r < 2 && !c->dropped; r++) {
+        SendFramebufferUpdateRequest(c->lc, 0, 0, c->lc->width, c->lc->height, FALSE);
+        pump();
+      }
+      if (!c->dropped) {
+        if (!have_ref) { ref = c->lc->supportedMessages; have_ref = 1; }
+        evf("sup%d:%d%d:%s", id, SupportsClient2Server(c->lc, rfbClientCutText) ? 1 : 0,
+            SupportsServer2Client(c->lc, rfbServerCutText) ? 1 : 0,
+            memcmp(&ref, &c->lc->supportedMessages, sizeof ref) ? "differs" : "same");
+      }
       finish_op(); continue;
     }
     if ((!strcmp(tok[0], "lib") || !strcmp(tok[0], "fsrv")) && n == 3) {
@@ -478,7 +615,7 @@ int main(void) {
       blob_t *b = blob(tok[2]);
       id = atoi(tok[1]);
       if (id < 0 || id >= MAXC || C[id].kind != K_RAW || !b || !srv_open(id) || C[id].sc.peer < 0 || C[id].stalled) { puts("bad-op"); fflush(stdout); continue; }
-      vh_send(&C[id].sc, b->p, b->n);
+      raw_send(&C[id], b->p, b->n);
       finish_op(); continue;
     }
     if (!strcmp(tok[0], "close") && n == 2) {
@@ -514,7 +651,7 @@ int main(void) {
       blob_t *b = blob(tok[2]);
       id = atoi(tok[1]);
       if (id < 0 || id >= MAXC || C[id].kind != K_RAW || !b || !srv_open(id) || C[id].sc.peer < 0 || C[id].stalled) { puts("bad-op"); fflush(stdout); continue; }
-      vh_send(&C[id].sc, b->p, b->n);
+      raw_send(&C[id], b->p, b->n);
       close(C[id].sc.peer); C[id].sc.peer = -1;
       finish_op(); continue;
     }
@@ -553,10 +690,10 @@ int main(void) {
   /* release everything the libraries own so that LeakSanitizer sees real leaks only */
   { int i;
     for (i = 0; i < MAXC; i++) {
-      if (C[i].lc) { if (C[i].lfd >= 0) { close(C[i].lfd); C[i].lc->sock = RFB_INVALID_SOCKET; } rfbClientCleanup(C[i].lc); C[i].lc = NULL; }
+      if (C[i].lc) { if (C[i].lfd >= 0) { close(C[i].lfd); C[i].lc->sock = RFB_INVALID_SOCKET; } free(C[i].lc->frameBuffer); C[i].lc->frameBuffer = NULL; rfbClientCleanup(C[i].lc); C[i].lc = NULL; }
       if (C[i].ffd >= 0) close(C[i].ffd);
       if ((C[i].kind == K_RAW || C[i].kind == K_RAWPRE) && C[i].sc.peer >= 0) close(C[i].sc.peer);
-      free(C[i].sc.out.p); free(C[i].fout.p);
+      free(C[i].sc.out.p); free(C[i].fout.p); free(C[i].wsplain.p);
     }
     rfbShutdownServer(scr, TRUE);
     free(scr->frameBuffer);
